@@ -212,7 +212,7 @@ Definition decode_latest (b : list Z) : res fid_err file_id :=
   let ref := negb (Z.land tid c_fileReferenceFlag =? 0) in
   let tid := Z.ldiff (Z.ldiff tid c_webLocationFlag) c_fileReferenceFlag in
   if tid >=? c_lastType then Err FUnknownType else
-  do (dc, b) <- wrap (decode_uint32 b);
+  do (dc, b) <- wrap (decode_int32 b);          (* dc_id: b.Int32(), f.DC = int(dcID) *)
   do (reference, b) <- (if ref then wrap (decode_bytes b) else Ok ([], b));
   if web then
     do (url, _) <- wrap (decode_string b); Ok (mkFileId tid dc 0 0 reference url pss0)
